@@ -33,7 +33,7 @@ Portable(s) ==
             /\ (s.ins.source.k = "select" => Portable(s.ins.source.q))
        [] s.kind = "update" -> NoRecOpts(s.with) /\ IsNone(s.returning) /\ Len(s.from) = 0 /\ Len(s.orders) = 0 /\ IsNone(s.limit) /\ (IsNone(s.with) \/ \A i \in DOMAIN s.with.ctes : Portable(s.with.ctes[i].q))
        [] s.kind = "delete" -> NoRecOpts(s.with) /\ IsNone(s.returning) /\ Len(s.orders) = 0 /\ IsNone(s.limit) /\ (IsNone(s.with) \/ \A i \in DOMAIN s.with.ctes : Portable(s.with.ctes[i].q))
-       [] s.kind = "withq" -> NoRecOpts(s.w) /\ Portable(s.q) /\ \A i \in DOMAIN s.w.ctes : Portable(s.w.ctes[i].q)
+       [] s.kind = "withq" -> NoRecOpts(s.w) /\ IsNone(s.q.with) /\ Portable(s.q) /\ \A i \in DOMAIN s.w.ctes : Portable(s.w.ctes[i].q)
 RECURSIVE HasNullsOrder(_)
 HasNullsOrder(s) ==
   CASE s.kind = "select" -> (\E i \in DOMAIN s.orders : s.orders[i].nulls # "none")
